@@ -158,3 +158,80 @@ def explore_point_add(timeout_ms=10000):
         for p, kind, rec in ex.explore(body):
             out.append(rec)
     return out
+
+
+# ---------------------------------------------------------------------------- abstract group mode (C03.4)
+GS = z3.DeclareSort("GroupG")
+G_add = z3.Function("g_add", GS, GS, GS)
+G_zero = z3.Const("g_zero", GS)
+G_nsmul = z3.Function("g_nsmul", z3.IntSort(), GS, GS)
+
+
+def group_axioms():
+    """commutative monoid laws of the point group and nsmul at 0 (the group structure itself is what the
+    Lean theorems of lean/gen/PointAdd.lean give: Point.__add__ is Mathlib's AddCommGroup addition)"""
+    x, y, z = z3.Consts("gx gy gz", GS)
+    return [z3.ForAll([x, y], G_add(x, y) == G_add(y, x), patterns=[G_add(x, y)]),
+            z3.ForAll([x, y, z], G_add(G_add(x, y), z) == G_add(x, G_add(y, z)), patterns=[G_add(G_add(x, y), z)]),
+            z3.ForAll([x], G_add(x, G_zero) == x, patterns=[G_add(x, G_zero)]),
+            z3.ForAll([x], G_nsmul(I(0), x) == G_zero, patterns=[G_nsmul(I(0), x)])]
+
+
+def gterm(m, v):
+    o = m.p.deref(v)
+    if "_g" in o.fields:
+        return o.fields["_g"]
+    if o.fields.get("x", 1) is None:
+        return G_zero
+    raise Undecided("concrete point in abstract group mode")
+
+
+def gpoint(m, term, like=None):
+    pecc = _pecc()
+    f = {"_g": term, "x": "<abstract>", "y": "<abstract>"}
+    if like is not None:
+        lo = m.p.deref(like).fields
+        f["a"], f["b"] = lo.get("a"), lo.get("b")
+    cls = m.p.deref(like).cls if like is not None else pecc.Point
+    return m.p.alloc(HObj(cls, f))
+
+
+def _is_abs_point(m, v):
+    return isinstance(v, Ref) and isinstance(m.p.deref(v), HObj) and ("_g" in m.p.deref(v).fields)
+
+
+def install_group(m):
+    pecc = _pecc()
+    from verif.specs import group as sg
+
+    def p_add(mach, args, kwargs):
+        a, b = args[0], args[1]
+        if not (_is_abs_point(mach, a) or _is_abs_point(mach, b)):
+            return NotImplemented
+        return gpoint(mach, G_add(gterm(mach, a), gterm(mach, b)), like=a if _is_abs_point(mach, a) else b)
+
+    def s_nsmul(mach, args, kwargs):
+        k, p = args
+        return gpoint(mach, G_nsmul(mach.it(k), gterm(mach, p)), like=p)
+
+    def s_eq(mach, args, kwargs):
+        return mach.mkbool(gterm(mach, args[0]) == gterm(mach, args[1]))
+
+    def s_step(mach, args, kwargs):
+        """ground instances of the commutative-monoid laws and of the Lean lemma nsmul_binary_step for the
+        terms of one loop iteration: c = coef, q = current, r = result"""
+        c, q = mach.it(args[0]), gterm(mach, args[1])
+        r = gterm(mach, args[2]) if len(args) > 2 else G_zero
+        half = G_nsmul(c / 2, G_add(q, q))
+        mach.p.assume(z3.Implies(c >= 0, G_nsmul(c, q) == G_add(half, z3.If(c % 2 == 1, q, G_zero))))
+        mach.p.assume(G_nsmul(I(0), q) == G_zero)
+        for t in (r, half, q, G_add(r, q), G_nsmul(c, q)):
+            mach.p.assume(G_add(t, G_zero) == t)
+            mach.p.assume(G_add(G_zero, t) == t)
+        mach.p.assume(G_add(G_add(r, q), half) == G_add(r, G_add(half, q)))       # associativity + commutativity
+        return True
+    m.intrinsics[pecc.Point.__add__] = p_add
+    m.intrinsics[sg.add] = p_add
+    m.intrinsics[sg.nsmul] = s_nsmul
+    m.intrinsics[sg.eq] = s_eq
+    m.intrinsics[sg.binary_step] = s_step
